@@ -200,6 +200,8 @@ pub fn scenarios(thorough: bool) -> Vec<Scenario> {
     v.push(trio_scenario("trio", if thorough { 8 } else { 6 }));
     v.push(long_chain_scenario("pair-long-chain", if thorough { 3 } else { 2 }, &[]));
     v.push(many_commits_scenario("pair-many-commits", if thorough { 4 } else { 3 }, &[]));
+    v.push(three_leaves_scenario("trio-three-leaves", if thorough { 4 } else { 3 }, &[]));
+    v.push(same_edit_scenario("pair-same-edit", if thorough { 4 } else { 3 }, &[]));
     v.push(tie_scenario("pair-tie", if thorough { 4 } else { 3 }, &[]));
     v.push(two_patch_scenario("pair-two-patches", if thorough { 4 } else { 3 }, &[]));
     v.push(diamond_scenario("pair-diamond", &[1, 9], if thorough { 4 } else { 3 }, &[Op::Resolve(0, 0, 0), Op::ObjPut(0, 1), Op::ObjPut(1, 2)]));
